@@ -27,7 +27,7 @@ RULE = ("random-content NP1 / NP2.4 recordings (bin and cbin) with spike trains 
 ASSUMPTIONS = ["spike times are sorted; a spike is identified by (sample, peak channel): a unit may hold two spikes on one sample (double detection)",
                "compressed inputs are always given a scratch_dir (see DESIGN.md section 5 C13 harness note)",
                "neighbourhood = sites within 200 um of the peak site in the reader's (sorted) channel order"]
-REQUIRED = {"extractions": 6, "rows_compared": 300, "row_sets_exactly_once": 3, "orders_executed": 6, "loader_checks": 3, "units_counted": 20, "scratch_histories": 2, "decompress_faults_injected": 1}
+REQUIRED = {"extractions": 6, "rows_compared": 300, "row_sets_exactly_once": 3, "orders_executed": 6, "loader_checks": 3, "units_counted": 20, "scratch_histories": 2, "caller_headers_with_other_geometry": 1, "decompress_faults_injected": 1}
 CASE_TIMEOUT = 300.0
 MAX_PROCS = 8
 OFF, LEN = 42, 128
@@ -119,14 +119,14 @@ def neighbours(h, radius=200.0):
     return nb, width
 
 
-def judge_output(res, out, sr, rec, times, clus, chans, max_wf, label, off=OFF, length=LEN):
-    """saved files vs the source-window model"""
+def judge_output(res, out, sr, rec, times, clus, chans, max_wf, label, off=OFF, length=LEN, h=None):
+    """saved files vs the source-window model (neighbourhoods from the header the caller handed in, else from the recording's own geometry)"""
     ns, nc = sr.ns, rec.n
     tr = np.load(out / "waveforms.traces.npy", mmap_mode="r")
     table = pd.read_parquet(out / "waveforms.table.pqt").reset_index(drop=True)
     chmap = np.load(out / "waveforms.channels.npz")["channels"]
     tmpl = np.load(out / "waveforms.templates.npy")
-    h = sr.geometry
+    h = h if h is not None else sr.geometry
     nb, width = neighbours(h)
     nw = len(table)
     res.check(tr.shape[0] == nw == chmap.shape[0], "files:row-count", f"{label}: traces {tr.shape[0]}, table {nw}, channels {chmap.shape[0]} rows")
@@ -243,10 +243,18 @@ def run_case(case):
             label = (f"{rec.kind} nsync={rec.nsync} {'cbin' if use_c else 'bin'} ns={rec.ns} chunk={chunk} max_wf={max_wf} spikes={times.size} (spike#0 at {times[0]}) reader_kwargs={rk}"
                      + (" h=given" if give_h else ""))
             xkw = {} if rk is None else {"reader_kwargs": dict(rk)}
+            h_other = None
             if give_h:
                 srh = spikeglx.Reader(b, sort=sort_flag)
                 xkw["h"] = {k: np.array(v) for k, v in srh.geometry.items()}
                 srh.close()
+                if rng.random() < 0.5:
+                    # the caller's header describes the sites better than the file's metadata does (another probe generation's pitch: 15 um rows):
+                    # the neighbourhoods are those of the header handed in
+                    xkw["h"]["y"] = xkw["h"]["y"] * 0.75
+                    h_other = xkw["h"]
+                    label += " (row pitch x0.75)"
+                    res.count("caller_headers_with_other_geometry")
             if not sort_flag:
                 res.count("unsorted_reader_extractions")
             xseed = 0 if case["seed"] % 1000 == 1 else case["seed"]      # one extraction per run uses seed 0 (a seed like any other)
@@ -282,7 +290,7 @@ def run_case(case):
             if outs:
                 sr = spikeglx.Reader(b, sort=sort_flag)
                 res.count("extractions")
-                table = judge_output(res, outs[0], sr, rec, times, clus, chans, max_wf, label)
+                table = judge_output(res, outs[0], sr, rec, times, clus, chans, max_wf, label, h=h_other)
                 try:
                     loader_checks(res, WE, outs[0], table, label)
                 except Exception as e:
